@@ -284,6 +284,7 @@ pub fn check(rep: &Reporter) {
 		}
 	}
 	rep.extra("long_non_ascii_texts", json!(long_texts));
+	drop(seen);
 	rep.extra("params_texts", json!(cases.len()));
 	let nscripts = seq_count(OPS.len(), max_script) - 1;
 	rep.extra("read_scripts", json!(nscripts));
